@@ -31,8 +31,8 @@
      FailFastOn    "anyerr" | "realerr" (context.Canceled does not trigger) | "never"
      FlattenPrefer "real" | "ctx" (a Canceled error wins over a real one) | "first" (first error of any kind)
      SkipCancelled TRUE | FALSE (the work function is called although the work context is cancelled)
-     CancelDrains  FALSE | TRUE  (repaired variant, pending_fixes/GROW-forkjoin-cancel-leak.diff: after cancel() idle
-                                  workers leave their loop once the buffer is drained and fork() enqueues nothing more)
+     CancelDrains  FALSE | TRUE  (repaired variant, pending_fixes/GROW-forkjoin-cancel-leak.diff: cancel() also closes
+                                  the input channel and starts the closer when Join has not been called)
      ExtraWorkers  0 | k         (k more worker goroutines than configured) *)
 EXTENDS Integers, Sequences, FiniteSets, TLC
 CONSTANTS FailFastOn, FlattenPrefer, SkipCancelled, CancelDrains, ExtraWorkers
@@ -58,7 +58,7 @@ VARIABLES cf,        \* [workers, buf, failfast, wait, script]: the options and 
           cn,        \* canceller: [st |-> "no" | "blocked" | "ret" | "done", pan |-> BOOLEAN]
           fl,        \* Flatten running on the results channel: "no" | "running" | "ret" | "done"
           fstart,    \* Len(got) when Flatten started
-          hst        \* history for the invariants: [started, late, notadded, errs, trig, panics]
+          hst        \* history for the invariants: [started, late, notadded, errs, trig, panics] and joined (Join was called)
 
 conf == <<cf>>
 chan == <<nfork, fk, inq, closed>>
@@ -80,7 +80,7 @@ InitWith(c) ==
   /\ wctx = "none" /\ root = "none"
   /\ pend = {} /\ rcv = Rcv("no", NoRes) /\ got = <<>> /\ lost = {} /\ dropOut = FALSE /\ joinSt = "no" /\ jret = ""
   /\ cn = [st |-> "no", pan |-> FALSE] /\ fl = "no" /\ fstart = 0
-  /\ hst = [started |-> {}, late |-> {}, notadded |-> {}, errs |-> <<>>, trig |-> "", panics |-> <<>>]
+  /\ hst = [started |-> {}, late |-> {}, notadded |-> {}, errs |-> <<>>, trig |-> "", panics |-> <<>>, joined |-> FALSE]
 
 Panicked(op) == hst' = [hst EXCEPT !.panics = Append(@, op)]
 FkRet(p) == [st |-> "ret", pan |-> p]
@@ -94,10 +94,7 @@ ForkCall(i) ==
   /\ fk.st = "idle" /\ i = nfork + 1 /\ i <= N
   /\ nfork' = i
   /\ UNCHANGED <<conf, closed, work, outp>>
-  /\ IF CancelDrains /\ dropOut
-       THEN fk' = FkRet(FALSE) /\ UNCHANGED inq /\ hst' = [hst EXCEPT !.notadded = @ \cup {i}]   \* repaired variant only
-       ELSE
-     \/ closed /\ fk' = FkRet(TRUE) /\ UNCHANGED inq
+  /\ \/ closed /\ fk' = FkRet(TRUE) /\ UNCHANGED inq
         /\ hst' = [hst EXCEPT !.panics = Append(@, "fork"), !.notadded = @ \cup {i}]
      \/ root # "none" /\ fk' = FkRet(FALSE) /\ UNCHANGED inq /\ hst' = [hst EXCEPT !.notadded = @ \cup {i}]
      \/ ~closed /\ Len(inq) < cf.buf /\ inq' = Append(inq, i) /\ fk' = FkRet(FALSE) /\ UNCHANGED hst
@@ -127,7 +124,7 @@ WTake ==
 \* the range loop ends on the closed and drained channel
 WExit ==
   /\ idle > 0 /\ inq = <<>> /\ fk.st # "blocked"
-  /\ closed \/ (CancelDrains /\ dropOut)
+  /\ closed
   /\ idle' = idle - 1 /\ exited' = exited + 1
   /\ UNCHANGED <<conf, chan, taken, running, rel, wctx, root, outp, hst>>
 \* `if workCtx.Err() != nil { enqueue(in, zero, workCtx.Err()); continue }` else call work(workCtx, in)
@@ -164,7 +161,7 @@ Release(i) == /\ i \in Inputs /\ i \notin rel /\ cf.script[i] \in Gated /\ rel' 
 WgZero == fk.st # "blocked" /\ inq = <<>> /\ taken = {} /\ running = {} /\ pend = {}
 \* the consumer (holding the channel join returned) receives once without blocking
 Recv ==
-  /\ joinSt # "no" /\ fl = "no"
+  /\ hst.joined /\ fl = "no"
   /\ \/ \E r \in pend : rcv' = Rcv("res", r) /\ got' = Append(got, r) /\ pend' = pend \ {r}
      \/ pend = {} /\ joinSt = "closed" /\ rcv' = Rcv("eof", NoRes) /\ UNCHANGED <<got, pend>>
      \/ pend = {} /\ joinSt # "closed" /\ rcv' = Rcv("none", NoRes) /\ UNCHANGED <<got, pend>>
@@ -173,7 +170,7 @@ Recv ==
 Drop(r) == /\ dropOut /\ r \in pend /\ pend' = pend \ {r} /\ lost' = lost \cup {r}
            /\ UNCHANGED <<conf, chan, work, rcv, got, dropOut, joinSt, jret, cn, fl, fstart, hst>>
 \* Flatten (a goroutine of the consumer) ranges over the channel: always ready to receive
-FlattenStart == /\ joinSt # "no" /\ fl = "no" /\ fl' = "running" /\ fstart' = Len(got)
+FlattenStart == /\ hst.joined /\ fl = "no" /\ fl' = "running" /\ fstart' = Len(got)
                 /\ UNCHANGED <<conf, chan, work, pend, rcv, got, lost, dropOut, joinSt, jret, cn, hst>>
 FlattenRecv(r) == /\ fl = "running" /\ r \in pend /\ got' = Append(got, r) /\ pend' = pend \ {r}
                   /\ UNCHANGED <<conf, chan, work, rcv, lost, dropOut, joinSt, jret, cn, fl, fstart, hst>>
@@ -198,17 +195,24 @@ FlatInput == SubSeq(got, fstart + 1, Len(got))
 \* ------------------------------------------------------------------------------------------------ join, cancel
 Join ==
   /\ fk.st = "idle"
-  /\ IF closed THEN jret' = "panic" /\ Panicked("join") /\ UNCHANGED <<closed, joinSt>>
-               ELSE jret' = "ok" /\ closed' = TRUE /\ joinSt' = "waiting" /\ UNCHANGED hst
+  /\ IF hst.joined THEN jret' = "panic" /\ Panicked("join") /\ UNCHANGED <<closed, joinSt>>
+                    ELSE /\ jret' = "ok" /\ closed' = TRUE /\ joinSt' = (IF joinSt = "no" THEN "waiting" ELSE joinSt)
+                         /\ hst' = [hst EXCEPT !.joined = TRUE]
   /\ UNCHANGED <<conf, nfork, fk, inq, work, pend, rcv, got, lost, dropOut, cn, fl, fstart>>
 JClose == /\ joinSt = "waiting" /\ WgZero /\ joinSt' = "closed"
           /\ UNCHANGED <<conf, chan, work, pend, rcv, got, lost, dropOut, jret, cn, fl, fstart, hst>>
 Cancel ==
   /\ cn.st \in {"no", "done"}
-  /\ IF dropOut THEN cn' = [st |-> "ret", pan |-> TRUE] /\ Panicked("cancel") /\ UNCHANGED <<dropOut, wctx>>
-     ELSE /\ dropOut' = TRUE /\ wctx' = (IF wctx = "none" THEN "ctx" ELSE wctx) /\ UNCHANGED hst
-          /\ cn' = [st |-> IF cf.wait /\ joinSt # "closed" THEN "blocked" ELSE "ret", pan |-> FALSE]
-  /\ UNCHANGED <<conf, chan, idle, exited, taken, running, rel, root, pend, rcv, got, lost, joinSt, jret, fl, fstart>>
+  /\ IF dropOut THEN cn' = [st |-> "ret", pan |-> TRUE] /\ Panicked("cancel") /\ UNCHANGED <<dropOut, wctx, closed, joinSt, fk>>
+     ELSE /\ dropOut' = TRUE /\ wctx' = (IF wctx = "none" THEN "ctx" ELSE wctx)
+          /\ IF CancelDrains      \* repaired variant: cancel() also closes the input and starts the closer when Join did not
+               THEN /\ closed' = TRUE /\ joinSt' = (IF joinSt = "no" THEN "waiting" ELSE joinSt)
+                    /\ IF fk.st = "blocked"      \* a fork blocked in another goroutine: send on the closed channel
+                         THEN fk' = FkRet(TRUE) /\ hst' = [hst EXCEPT !.panics = Append(@, "fork"), !.notadded = @ \cup {nfork}]
+                         ELSE UNCHANGED <<fk, hst>>
+               ELSE UNCHANGED <<closed, joinSt, fk, hst>>
+          /\ cn' = [st |-> IF cf.wait /\ joinSt' # "closed" THEN "blocked" ELSE "ret", pan |-> FALSE]
+  /\ UNCHANGED <<conf, nfork, inq, idle, exited, taken, running, rel, root, pend, rcv, got, lost, jret, fl, fstart>>
 CancelWake == /\ cn.st = "blocked" /\ joinSt = "closed" /\ cn' = [cn EXCEPT !.st = "ret"]
               /\ UNCHANGED <<conf, chan, work, pend, rcv, got, lost, dropOut, joinSt, jret, fl, fstart, hst>>
 CancelReturn == /\ cn.st = "ret" /\ cn' = [st |-> "done", pan |-> FALSE]
@@ -245,7 +249,8 @@ TypeOK ==
   /\ idle \in 0..(cf.workers + ExtraWorkers) /\ exited \in 0..(cf.workers + ExtraWorkers)
   /\ idle + exited + Cardinality(taken) + Cardinality(running) = cf.workers + ExtraWorkers
   /\ wctx \in {"none", "ctx", "dl"} /\ root \in {"none", "ctx", "dl"} /\ (root # "none" => wctx # "none")
-  /\ joinSt \in {"no", "waiting", "closed"} /\ (joinSt # "no" <=> closed)
+  /\ joinSt \in {"no", "waiting", "closed"} /\ (joinSt # "no" <=> closed) /\ (hst.joined => closed)
+  /\ (~CancelDrains => (closed <=> hst.joined))
   /\ Len(inq) <= cf.buf
 
 \* "every forked input yields exactly one Result carrying that input": an input that was enqueued is in exactly one place
@@ -275,9 +280,9 @@ WorkerBound == Cardinality(running) <= cf.workers
 ForkBlocksOnlyWhenFull == fk.st = "blocked" => Len(inq) = cf.buf /\ ~closed
 \* Fork after Join panics (or, root context done, gives up); Join twice panics
 PanicRule == /\ Panics("fork") > 0 => closed
-             /\ Panics("join") > 0 => closed
+             /\ Panics("join") > 0 => hst.joined
              /\ Panics("cancel") > 0 => dropOut
-             /\ \A i \in 1..nfork : (i \in hst.notadded) => root # "none" \/ closed \/ (CancelDrains /\ dropOut)
+             /\ \A i \in 1..nfork : (i \in hst.notadded) => root # "none" \/ closed
 \* Flatten: every output in arrival order; the error is a real one whenever some result carries a real one ("the first
 \* real error ... not a context error"), a context error only when nothing else went wrong
 Flat == FlattenOf(FlatInput)
